@@ -110,7 +110,7 @@ theorem parseDeclarations_variable_init (env : Env) (G D : Nat) (tok : CTok) (do
         have ho : o.type = "*" := by simpa [opsHeadOk] using hops
         exact ⟨o, _, hto, by rw [ho]; decide, by rw [ho]; decide, by rw [ho]; decide, hopsv o (by simp)⟩
   obtain ⟨w1, t1, hi1, hs1, ht1, hty1, hv1⟩ := parseType_plain env (G + 1) D true tok pairs w b0 bnx nx hty hpv hnc hall hy0 hnx
-    hnxstop hnxlt hnxdc (by omega)
+    (typeStop_end hnxstop) hnxlt hnxdc (by omega)
   obtain ⟨w2, t2, hi2, hs2, ht2, hty2, hv2⟩ := step_tokenIfP_miss env (fun t => ["auto"].contains t.value) w1 t1 bnx ht1
     (by intro c _ hcv; show ["auto"].contains c.value = false; rw [hcv, hv1]; simp [hnxauto])
   have hsl2 : SameButLog w w2 := hs1.trans hs2.butLog
